@@ -46,6 +46,7 @@ func main() {
 		c.Require("crash.points", 150)
 		c.Require("crash.recovered_ok", 150)
 		c.Require("crash.during_recovery", 5)
+		c.Require("reference.pruned_files", 5)
 		for _, kind := range []string{"blk-write", "blk-sync", "ldb-commit-pre", "ldb-commit-post"} {
 			c.Require("crash.at."+kind, 3)
 		}
@@ -69,6 +70,13 @@ func buildWorkload(k *mon.Case, dir string, recoveryFamily bool) (*Workload, int
 	g.MaxTx = 4
 	cfg := WConfig{UtxoCache: []uint64{0, 4096, 1 << 25}[r.Intn(3)], MaxBlockFileSize: []uint32{0, 2048, 16384}[r.Intn(3)],
 		LdbCacheBytes: []uint64{0, math.MaxUint64}[r.Intn(2)], FlushSecs: []uint32{0, math.MaxUint32}[r.Intn(2)]}
+	if cfg.MaxBlockFileSize != 0 && r.Chance(1, 2) {
+		// pruning: keep a few block files only (old files are deleted while the workload runs)
+		cfg.Prune = uint64(cfg.MaxBlockFileSize) * uint64([]int{2, 3}[r.Intn(2)])
+		if cfg.MaxBlockFileSize < 4096 {
+			cfg.Prune = uint64([]int{8192, 16384}[r.Intn(2)])
+		}
+	}
 	if recoveryFamily {
 		// the utxo cache is (almost) never flushed while the workload runs, so the consistency marker stays far
 		// behind the tip and recovery has many blocks to replay
@@ -81,7 +89,7 @@ func buildWorkload(k *mon.Case, dir string, recoveryFamily bool) (*Workload, int
 		kinds = append(kinds, e.Kind)
 		return nil
 	}
-	s, err := sim.New(k, g, node.Config{UtxoCacheMaxSize: cfg.UtxoCache,
+	s, err := sim.New(k, g, node.Config{UtxoCacheMaxSize: cfg.UtxoCache, Prune: cfg.Prune,
 		FFLDB: &node.FFLDBOpts{Cb: cb, MaxBlockFileSize: cfg.MaxBlockFileSize, CacheBytes: cfg.LdbCacheBytes, FlushSecs: cfg.FlushSecs}})
 	if err != nil {
 		k.Failf("harness:open", "%v", err)
@@ -187,6 +195,16 @@ func buildWorkload(k *mon.Case, dir string, recoveryFamily bool) (*Workload, int
 		s.Reconsider(invalidated)
 		w.TipAfter = append(w.TipAfter, tipIdx())
 		opEnd = append(opEnd, events)
+	}
+	if cfg.Prune != 0 {
+		pruned := 0
+		for _, kd := range kinds {
+			if kd == "blk-delete" {
+				pruned++
+			}
+		}
+		k.Count("reference.pruned_files", int64(pruned))
+		k.Count("reference.prune_configs", 1)
 	}
 	ok := !s.Failed
 	// count the events of an orderly close too (the children close as well)
